@@ -80,7 +80,7 @@ func corpus() []updsim.History {
 			cfg := updsim.Config{Base: []int{0, 0}}
 			h := updsim.History{Cfg: cfg, Log: []updsim.Entry{E(1, updsim.KMsg, 0, 1, 1), E(2, updsim.KMsg, 0, 2, 1), E(3, updsim.KMsg, 0, 3, 1)}}
 			cid := 100
-			h.Ops = append([]updsim.Op{{K: updsim.OpStartup, Vis: []int{0, 0, 0}}}, updsim.FinalOpsVariant(cfg, []int{3, 0, 0}, variant, numbered, &cid)...)
+			h.Ops = append([]updsim.Op{{K: updsim.OpStartup, Vis: []int{0, 0, 0}}}, updsim.FinalOpsVariant(cfg, []int{0, 0, 0}, []int{3, 0, 0}, variant, numbered, &cid)...)
 			hs = append(hs, h)
 		}
 	}
@@ -97,6 +97,9 @@ func corpus() []updsim.History {
 
 func main() {
 	c := hx.Start("C02", "Run.Check_C02", 120)
+	// hx.NewRand(seed) has state seed*C+k, and every draw adds C: the streams of seeds 1, 2, 3 are the
+	// same stream shifted by one draw and re-synchronise. Re-seed from a mixed output instead.
+	c.Rng = hx.NewRand(c.Rng.U64() ^ 0x5bd1e995c3a7f1d3)
 	var rp updsim.History
 	if c.LoadReplay(&rp) {
 		res := updsim.RunHistory(rp)
